@@ -34,7 +34,9 @@ IMPORTS = {
     # a name imported explicitly and THEN a star import of the same module
     "from_fxh_Base_then_star": ("from fxh import Base\nfrom fxh import *", "Base.__name__"),
 }
-ANNOS = [None, None, None, "int", "str", "'Base2'", "float"]
+ANNOS = [None, None, None, "int", "str", "'Base2'", "float", None, None,
+         # a long-hand annotation: overwriting it with a short traced type makes the file SHORTER
+         "'Dict[str, List[Tuple[int, Optional[Dict[str, List[Tuple[int, Optional[Dict[str, List[Tuple[int, Optional[str]]]]]]]]]]]]'"]
 STMTS = ["CONST = 1  # c", "X, Y = 1, 2", "if len('ab') == 2:\n    FLAG = True\nelse:\n    FLAG = False", "try:\n    import json as _j\nexcept ImportError:\n    _j = None",
          "LST = [\n    1,\n    2,  # two\n]", "a = 1; b = 2",
          # multi-line string literals with whitespace-only lines, trailing blanks and tabs (their VALUE is part of the program)
